@@ -19,8 +19,9 @@
 (*   C01  every observed registry is dense and closed; resolve is by label *)
 (*   C05  hits are no-ops, ids partition spellings exactly by identity,    *)
 (*        one entry per reachable identity, type_info() evaluated only as  *)
-(*        part of a miss (Eval events are consumed by the model's miss     *)
-(*        steps -- for the other checks the runner strips them)            *)
+(*        part of a miss: the Eval events in front of a call are exactly   *)
+(*        the identities that call met for the first time, each once, in   *)
+(*        any order (for the other checks the runner strips them)          *)
 (*   C11  each state extends the previous one; replays are byte-identical; *)
 (*        permuted root orders give isomorphic registries                  *)
 (***************************************************************************)
@@ -45,9 +46,13 @@ TReset == /\ Quiescent /\ ret = NoRet /\ Ev("Universe") /\ Load(InfoOf(Rec[l])) 
 HasPending == \E j \in l..Len(Rec) : Rec[j].ev \in CallEvs /\ \A k \in l..(j-1) : Rec[k].ev = "Eval"
 Pending == CHOOSE j \in l..Len(Rec) : Rec[j].ev \in CallEvs /\ \A k \in l..(j-1) : Rec[k].ev = "Eval"
 
-\* a miss of a user identity evaluates its type_info(): the callback event must be next
-ConsumeEval(t, miss) ==
-  IF miss /\ Check = "C05" /\ t # PhantomId THEN Ev("Eval") /\ Rec[l].t = t /\ l' = l + 1 ELSE l' = l
+\* Eval callback events stay in front of the call event they belong to and are judged at its return
+\* (EvalsOK): C05 says how OFTEN a definition is evaluated, not in which order members are visited
+ConsumeEval(t, miss) == l' = l
+EvalsOK(j) == LET evt == [k \in 1..(j - l) |-> Rec[l + k - 1].t]
+                  new == {table[i] : i \in (Len(prev) + 1)..Len(table)} \ {PhantomId} IN
+              /\ \A a, b \in 1..Len(evt) : evt[a] = evt[b] => a = b          \* no definition evaluated twice
+              /\ {evt[k] : k \in 1..Len(evt)} = new                           \* exactly the identities met for the first time
 
 TBegin == /\ Quiescent /\ ret = NoRet /\ HasPending
           /\ LET e == Rec[Pending] IN
@@ -90,9 +95,11 @@ AcceptCall(e) ==
                         /\ Len(e.types) = Len(table)                       \* one entry per reachable identity
                         /\ C05_Once
     [] Check = "C11" -> IsPrefix(prev, e.types)
-TReturn == /\ Quiescent /\ ret # NoRet /\ l <= Len(Rec) /\ Rec[l].ev \in CallEvs
-           /\ AcceptCall(Rec[l])
-           /\ ret' = NoRet /\ prev' = Rec[l].types /\ seen' = NewSeen(Rec[l]) /\ l' = l + 1
+TReturn == /\ Quiescent /\ ret # NoRet /\ HasPending
+           /\ LET j == Pending IN
+              /\ IF Check = "C05" THEN EvalsOK(j) ELSE j = l
+              /\ AcceptCall(Rec[j])
+              /\ ret' = NoRet /\ prev' = Rec[j].types /\ seen' = NewSeen(Rec[j]) /\ l' = j + 1
            /\ UNCHANGED <<info, table, types, stack, evals>>
 
 ResolveProbesOK(e) == \A k \in 1..Len(e.res) :
